@@ -79,8 +79,11 @@ class Group:
 
         # handle the basecase where the spec stops immediately
         # TODO: something smarter
-        if type(self.spec) in (dict, list):
-            ret = type(self.spec)()
+        spec = self.spec
+        while type(spec) is Limit:  # a limited dict / list starts out empty, too
+            spec = spec.subspec
+        if type(spec) in (dict, list):
+            ret = type(spec)()
         else:
             ret = None
 
